@@ -556,19 +556,40 @@ func ruleBlockSeekInterval(c *Ctx, r *Reporter) {
 	// the search loop: a loop whose header compares two integer phis (left < right) and whose body indexes restartPoints
 	var loop *GenericLoop
 	var leftPhi, rightPhi *ssa.Phi
-	for _, l := range GenericLoops(fn) {
-		iff, ok := l.Header.Instrs[len(l.Header.Instrs)-1].(*ssa.If)
-		if !ok {
-			continue
+	findSearch := func(f *ssa.Function) bool {
+		for _, l := range GenericLoops(f) {
+			iff, ok := l.Header.Instrs[len(l.Header.Instrs)-1].(*ssa.If)
+			if !ok {
+				continue
+			}
+			bo, ok := iff.Cond.(*ssa.BinOp)
+			if !ok || (bo.Op != token.LSS && bo.Op != token.LEQ) {
+				continue
+			}
+			lp, ok1 := bo.X.(*ssa.Phi)
+			rp, ok2 := bo.Y.(*ssa.Phi)
+			if ok1 && ok2 && lp.Block() == l.Header && rp.Block() == l.Header {
+				loop, leftPhi, rightPhi = l, lp, rp
+			}
 		}
-		bo, ok := iff.Cond.(*ssa.BinOp)
-		if !ok || (bo.Op != token.LSS && bo.Op != token.LEQ) {
-			continue
-		}
-		lp, ok1 := bo.X.(*ssa.Phi)
-		rp, ok2 := bo.Y.(*ssa.Phi)
-		if ok1 && ok2 && lp.Block() == l.Header && rp.Block() == l.Header {
-			loop, leftPhi, rightPhi = l, lp, rp
+		return loop != nil
+	}
+	// Seek may delegate the search to a primitive on the same receiver that is given the target (SeekFloor): the
+	// search is then judged there, and what Seek makes of the primitive's answer is judged here (seekComposition)
+	seekFn := fn
+	var delegate *ssa.Call
+	if !findSearch(fn) && len(fn.Params) >= 2 {
+		AllInstrs(fn, false, func(_ *ssa.Function, ins ssa.Instruction) {
+			call, ok := ins.(*ssa.Call)
+			if !ok || delegate != nil || call.Call.StaticCallee() == nil || len(call.Call.Args) < 2 {
+				return
+			}
+			if call.Call.Args[0] == ssa.Value(fn.Params[0]) && call.Call.Args[1] == ssa.Value(fn.Params[1]) && len(call.Call.StaticCallee().Blocks) > 0 && findSearch(call.Call.StaticCallee()) {
+				delegate = call
+			}
+		})
+		if delegate != nil {
+			fn = delegate.Call.StaticCallee()
 		}
 	}
 	if loop == nil {
@@ -650,7 +671,26 @@ func ruleBlockSeekInterval(c *Ctx, r *Reporter) {
 		return
 	}
 	if kind == "floor" {
+		// a floor search keeps `left = mid`: with two candidates left it makes progress only if mid is the UPPER one
+		var midV ssa.Value
+		for _, b := range fn.Blocks {
+			if !loop.Contains(b) {
+				continue
+			}
+			for _, ins := range b.Instrs {
+				if bo, ok := ins.(*ssa.BinOp); ok && (bo.Op == token.QUO || bo.Op == token.SHR) && midV == nil {
+					midV = bo
+				}
+			}
+		}
+		if up, known := midRoundsUp(midV); known && !up {
+			r.Bad(name+":search-shape", c.blockPos(loop.Header), "the floor search keeps `left = mid` but computes mid rounded DOWN: with two restart points left (right = left+1) and the lower one <= target, mid is left again and the loop never ends — the first seek into a block with two or more restart points hangs")
+			return
+		}
 		r.OK(name+":search-shape", c.blockPos(loop.Header), "floor search: ends at the last restart point whose key is <= target; the forward scan starts in the right interval")
+		if delegate != nil {
+			seekComposition(c, r, seekFn, delegate, name)
+		}
 		return
 	}
 	// lower-bound: post-loop row
@@ -695,6 +735,113 @@ func ruleBlockSeekInterval(c *Ctx, r *Reporter) {
 	r.Check(decodes >= 2, name+":after-lower-bound-search", c.blockPos(done),
 		"when the restart point found has a key greater than the target (and is not the first), the iterator examines the interval before it",
 		"the restart search ends at the FIRST restart point whose key is >= target, and when that key is greater than the target the iterator answers with it at once: the entries between the previous restart point and this one — among them the target, unless it sits exactly on a restart point — are never examined. A point lookup misses 15 of every 16 keys of a block, and a range scan starts too late")
+}
+
+// midRoundsUp: v = (a + b [+ 1]) / 2 or >> 1 — does the midpoint round up? known=false for any other shape.
+func midRoundsUp(v ssa.Value) (up bool, known bool) {
+	bo, ok := v.(*ssa.BinOp)
+	if !ok {
+		return false, false
+	}
+	if k, isK := constInt(bo.Y); !isK || (bo.Op == token.QUO && k != 2) || (bo.Op == token.SHR && k != 1) {
+		return false, false
+	}
+	consts, terms := int64(0), 0
+	var flat func(x ssa.Value, d int) bool
+	flat = func(x ssa.Value, d int) bool {
+		if d > 4 {
+			return false
+		}
+		if k, isK := constInt(x); isK {
+			consts += k
+			return true
+		}
+		if b, ok := x.(*ssa.BinOp); ok && b.Op == token.ADD {
+			return flat(b.X, d+1) && flat(b.Y, d+1)
+		}
+		if c, ok := x.(*ssa.Convert); ok {
+			return flat(c.X, d+1)
+		}
+		terms++
+		return true
+	}
+	if !flat(bo.X, 0) || terms != 2 {
+		return false, false
+	}
+	return consts == 1, consts == 0 || consts == 1
+}
+
+// seekComposition: Seek built on a floor primitive ("the last key <= target"). The first key >= target is the floor
+// itself only when it EQUALS the target; otherwise it is the entry after the floor, or the first entry when there is no
+// floor. So: a success that Seek reports without moving on must be guarded by an equality test of a key with the
+// target (or be the answer of the step/rewind it has just made), and the floor's answer may not be returned as it is.
+func seekComposition(c *Ctx, r *Reporter, seek *ssa.Function, floor *ssa.Call, name string) {
+	cons := name + ":floor-then-step"
+	target := ssa.Value(seek.Params[1])
+	var eqCalls []*ssa.Call
+	AllInstrs(seek, false, func(_ *ssa.Function, ins ssa.Instruction) {
+		call, ok := ins.(*ssa.Call)
+		if !ok {
+			return
+		}
+		if sn := staticName(call); (sn == "bytes.Equal" || sn == "bytes.Compare") && (call.Call.Args[0] == target || call.Call.Args[1] == target) {
+			eqCalls = append(eqCalls, call)
+		}
+	})
+	equalFact := func(cond ssa.Value) (bool, bool) {
+		for _, call := range eqCalls {
+			if staticName(call) == "bytes.Equal" {
+				if t, f := callTrueFact(call)(cond); t || f {
+					return t, f
+				}
+				continue
+			}
+			if bo, ok := cond.(*ssa.BinOp); ok {
+				x, y := bo.X, bo.Y
+				if k, isK := constInt(x); isK && k == 0 && y == ssa.Value(call) {
+					x, y = y, x
+				}
+				if k, isK := constInt(y); isK && k == 0 && x == ssa.Value(call) {
+					switch bo.Op {
+					case token.EQL:
+						return true, false
+					case token.NEQ:
+						return false, true
+					}
+				}
+			}
+		}
+		return false, false
+	}
+	for _, ret := range Returns(seek) {
+		v := ReturnValue(ret, 0)
+		if b, isK := constBool(v); isK {
+			if !b {
+				continue
+			}
+			if !Dominates(floor, ret) {
+				continue // a success before the floor was asked: not this rule's
+			}
+			if !GuardedBy(ret.Block(), equalFact) {
+				r.Bad(cons, c.InsPos(ret), "Seek reports success on the floor entry (the last key <= target) without having established that it EQUALS the target: for a target between two keys the iterator lands on the smaller one — a range scan delivers a key below its start, a point lookup compares the wrong entry")
+				return
+			}
+			continue
+		}
+		if v == ssa.Value(floor) {
+			r.Bad(cons, c.InsPos(ret), "Seek returns the floor primitive's answer as its own: 'the last key <= target' is not 'the first key >= target' unless they are equal")
+			return
+		}
+		if call, ok := v.(*ssa.Call); ok && call.Call.StaticCallee() != nil && len(call.Call.Args) > 0 && call.Call.Args[0] == ssa.Value(seek.Params[0]) {
+			switch call.Call.StaticCallee().Name() {
+			case "Next", "Valid":
+				continue
+			}
+		}
+		r.Undecided(cons, c.InsPos(ret), "a result of Seek that is neither a constant, nor guarded by an equality with the target, nor the answer of Next/Valid: "+v.String())
+		return
+	}
+	r.OK(cons, c.FnPos(seek), "Seek answers with the floor only when it equals the target, otherwise with the entry after it (or the first entry)")
 }
 
 // ruleIndexSeekAgreement: the index block holds one key per data block. The writer stores the block's FIRST key; a reader
@@ -765,6 +912,29 @@ func ruleIndexSeekAgreement(c *Ctx, r *Reporter) {
 		r.Info(cons, c.FnPos(seek), "index key kind '"+kind+"': not judged")
 		r.OK(cons+":kind", c.FnPos(seek), "nothing recognised to judge")
 		return
+	}
+	// the point-lookup path positions its own index iterator: same agreement
+	if fb := c.Func("pkg/sstable", "Reader", "FindBlockForKey"); fb != nil && len(fb.Params) >= 2 {
+		var ms []string
+		back := false
+		AllInstrs(fb, false, func(_ *ssa.Function, ins ssa.Instruction) {
+			call, ok := ins.(*ssa.Call)
+			if !ok || call.Call.StaticCallee() == nil || recvTypeName(call.Call.StaticCallee()) != "block.Iterator" || len(call.Call.Args) < 2 || call.Call.Args[1] != ssa.Value(fb.Params[1]) {
+				return
+			}
+			ms = append(ms, call.Call.StaticCallee().Name())
+			switch call.Call.StaticCallee().Name() {
+			case "Prev", "SeekForPrev", "SeekFloor", "SeekLE", "SeekToPrev":
+				back = true
+			}
+		})
+		fcons := "sstable.Reader.FindBlockForKey~sstable.IndexEntry.FirstKey"
+		if len(ms) == 0 {
+			r.Info(fcons, c.FnPos(fb), "the index is not positioned by the key (every block is a candidate): nothing to agree on")
+		} else {
+			r.Check(back, fcons, c.FnPos(fb), "the candidate blocks start at the last index entry <= key",
+				"the index holds each block's FIRST key, and FindBlockForKey starts its candidate list at the first index key >= key ("+strings.Join(ms, ", ")+"): the block that contains the key — the one that starts at or before it — is not among the candidates unless the key is the first of its block, so Reader.Get misses it")
+		}
 	}
 	r.Check(stepsBack, cons, c.FnPos(seek), "the index holds each block's first key and the reader positions on the last entry <= target",
 		"the index holds each block's FIRST key, and the reader positions the index with a lower-bound seek ("+strings.Join(methods, ", ")+") and loads that block: for a target that is not the first key of a block this is the block AFTER the one that contains it; the search then only moves forward. In a table with several blocks a point lookup finds only the first key of each block, and a range scan skips the tail of the block its start key lies in")
